@@ -62,6 +62,43 @@ def forRangeAuxC {α} (body : Int → α → MC Unit) : List α → Int → MC U
   | x :: xs, i => bindC (body i x) fun _ => forRangeAuxC body xs (i + 1)
 def forRangeC {α} (l : List α) (body : Int → α → MC Unit) : MC Unit := forRangeAuxC body l 0
 
+/-! ### the same method as a *program* (deep embedding), for the interleaving semantics of C12
+
+`Gen/Code/Language_mapping.lean` also contains `Language_mapping_prog`, the method as a value of
+`Prog`; `Prog.run` is its sequential meaning in the vocabulary above (`prog_run`: it is the
+translated function), and `Lemmas/ConcCode.lean` gives the same programs an interleaving semantics. -/
+
+/-- a statement of a `Do` closure -/
+inductive CStmt
+  | makeMap (v : Nat)                 -- v = make(map[string]int64, n)
+  | fill (v : Nat) (table : Nat)      -- for idx, word := range wordlist.T { v[word] = int64(idx) }
+deriving DecidableEq, Repr
+
+/-- the package-level variable a closure statement writes -/
+def CStmt.var : CStmt → Nat
+  | .makeMap v => v
+  | .fill v _ => v
+
+/-- `mapping()` for one receiver value: once-guarded closures, then the returned variable (or nil) -/
+inductive Prog
+  | onceDo (cell : Nat) (body : List CStmt) (k : Prog)
+  | retVar (v : Nat)
+  | retNil
+deriving DecidableEq, Repr
+
+def CStmt.run : CStmt → MC Unit
+  | .makeMap v => setMapVar v Go.makeMap
+  | .fill v t => forRangeC (words t) fun idx word => mapAssign v word (toInt idx)
+
+def CStmt.runAll : List CStmt → MC Unit
+  | [] => pureC ()
+  | st :: r => bindC st.run fun _ => CStmt.runAll r
+
+def Prog.run : Prog → MC MapVal
+  | .onceDo c body k => bindC (Go.onceDo c (CStmt.runAll body)) fun _ => k.run
+  | .retVar v => getMapVar v
+  | .retNil => pureC none
+
 /-! ### the abstraction: which concrete state an abstract `PkgState` stands for -/
 
 /-- the entries after `for i, w := range ws { m[w] = int64(i) }` (from index `i`, on top of `l`) -/
